@@ -27,6 +27,26 @@ MINE = {
  "C17-a": ("caught as built", ""),
  "C18-a": ("missed", "schema-shape probes gained three same-short-name layouts where each namesake is the only route to some message"),
  "C19-a": ("missed", "range rules with equal bounds (accept exactly one value / nothing) and inverted bounds; pvstub corrected to the rules' own CEL (exclusive only when upper < lower)"),
+ "C01-b": ("missed", "routing catalogue gained the 'shared' sub-catalogue: one path under several verbs, trailing slashes, the bare '/' under a base path; every base_path class runs in the quick tier"),
+ "C02-b": ("caught as built", ""),
+ "C03-b": ("caught as built", ""),
+ "C04-b": ("missed", "new sub-check c04enum runs the generated JSON methods of every annotated enum type (top level, nested, same short name in several scopes, a file of its own) through encoding/json, for go-http and go-client; enum shapes joined the L1 corpus of C14/C15/C18"),
+ "C05-b": ("missed by C05 (caught by C04/C15)", "c04split also runs under C05 (json-split): helper types in an imported file, generated together or one invocation per file, must give the single-file JSON"),
+ "C06-b": ("caught as built", ""),
+ "C07-b": ("missed (masked by a coarse known-finding entry)", "rich-sibling features (optional scalars/messages, members of a plain oneof, repeated, map next to every codec family); the known entry for flattened oneofs is restricted to the coordinate paths it was observed at; later generalised into the known-instance list"),
+ "C08-b": ("missed in quick (base sampled out), caught in thorough", "every base_path class runs in the quick tier of C08 and C01"),
+ "C09-b": ("missed", "services with several methods: each method is judged against its own declarations (with/without method headers in every order, optional service headers before required ones)"),
+ "C10-b": ("missed", "custom *Error bodies: the client's error must still carry the body's content; Go client against servers whose error hook rewrites status/body (incl. a 400 that is not a ValidationError)"),
+ "C11-b": ("missed", "feature unwrap/siblings/optional-message: an unwrap container with an optional message, repeated message, map and 64-bit siblings (found a genuine defect on the way: 64-bit siblings in proto3 JSON string form are rejected)"),
+ "C12-b": ("missed", "nullable probed on a real oneof member (scalar and message), repeated and map fields"),
+ "C13-b": ("caught as built", ""),
+ "C14-b": ("missed", "enum shapes incl. an enums-only file in the L1 corpus; c04enum under C14"),
+ "C15-b": ("missed by C15 (caught by C04/C14)", "the multi-file package gained a root map unwrap whose value type (other file) unwraps again"),
+ "C16-b": ("missed", "recursion through annotations: flatten (with/without prefix), unwrap list, unwrap map value, discriminated oneof nested/flattened, cycle lengths 1-3"),
+ "C17-b": ("missed by C17 (deterministic aliasing, caught by C09 after its multi-method cases)", "C17's schema declares optional service headers next to the required ones, so route-level header tables with spare capacity are exercised"),
+ "C18-b": ("missed", "discriminated oneofs whose variant message types are nested declarations or non-CamelCase names (Go identifier != schema name)"),
+ "C19-b": ("caught as built", ""),
+ "C20-b": ("missed", "every method of a mocked service is called; a message that is the request of one RPC and the response of others must still take its declared examples"),
  "C20-a": ("missed", "example membership is checked along every path (wildcards for list elements and map values) of a response that reaches one message type several times"),
 }
 
@@ -63,6 +83,11 @@ for d in sorted(glob.glob(os.path.join(ROOT, "C*-*"))):
     json.dump(meta, open(os.path.join(d, "meta.json"), "w"), indent=1, ensure_ascii=False)
     rows.append(meta)
 
+import io, sys
+buf = io.StringIO()
+_print = print
+def print(*a, **k):
+    _print(*a, **k, file=buf)
 print("| change | property | needs | first verdict | caught by (quick tier) | strengthening |")
 print("|---|---|---|---|---|---|")
 for m in rows:
@@ -73,3 +98,11 @@ for m in rows:
     if m["not_caught_by"]:
         det += " (not: " + ", ".join(m["not_caught_by"]) + ")"
     print(f'| {m["id"]} | {m["breaks_property"]} | {needs} | {m["first_verdict_of_registered_check"]} | {det} | {m["strengthening"] or "-"} |')
+
+table = buf.getvalue()
+dp = os.path.join(ROOT, "..", "DESIGN.md")
+d = open(dp).read()
+b, e = d.index("<!-- MATRIX:BEGIN -->"), d.index("<!-- MATRIX:END -->")
+d = d[:b] + "<!-- MATRIX:BEGIN -->\n(generated by tools/gen_meta.py from seeded/*/detection.json)\n\n" + table + d[e:]
+open(dp, "w").write(d)
+_print(table)
